@@ -267,6 +267,32 @@ def replay_file(pid, path, tier="quick"):
     return has_inv(r, inv) if inv else bool(r.get("viol")), r
 
 
+def replay_regress(pid, tier="quick"):
+    """regression corpus: minimised replays of defects that were fixed in /repo (and of
+    breakages found in sensitivity studies).  None of them may reproduce.  Returns
+    (n_replayed, [(path, result)] reproduced, [errors])"""
+    import glob
+    files = sorted(glob.glob(os.path.join(VERIF, "regress", pid, "*.json")))
+    groups = {}
+    for path in files:
+        with open(path) as fp:
+            doc = json.load(fp)
+        inv = doc.get("violation", {}).get("cls") or doc.get("violation", {}).get("inv")
+        key = (doc.get("hashseed", 0), json.dumps(doc.get("env"), sort_keys=True), doc.get("tier", tier))
+        groups.setdefault(key, []).append((path, doc, inv))
+    bad, errs, n = [], [], 0
+    for (hs, _e, tr), items in sorted(groups.items(), key=lambda kv: kv[0]):
+        res = run_chunk(pid, tr, [{"i": i, "seed": d.get("seed", 0), "record": d["record"]}
+                                  for i, (_p, d, _v) in enumerate(items)], hs, items[0][1].get("env"))
+        for (path, doc, inv), r in zip(items, res):
+            n += 1
+            if r.get("err"):
+                errs.append((path, r["err"]))
+            elif (has_inv(r, inv) if inv else bool(r.get("viol"))):
+                bad.append((path, r))
+    return n, bad, errs
+
+
 def cmd_replay(pid, path):
     ok, r = replay_file(pid, path)
     if r.get("err"):
@@ -323,6 +349,20 @@ def check(pid, tier, batch_seed):
             say("KNOWN-FINDING: property=%s %s [%s]" % (pid, f["what"], f["id"]))
         else:
             say("note: listed finding %s no longer reproduces (%s)" % (f["id"], f["what"]))
+
+    # (a2) the regression corpus: replays of fixed defects must stay fixed
+    n_regress, rbad, rerrs = replay_regress(pid, tier)
+    for path, e in rerrs:
+        say("HARNESS-ERROR property=%s regression replay %s: %s" % (pid, path, e[:1500]))
+        exit_code = 2
+    for path, r in rbad:
+        v = r["viol"][0]
+        say("violated invariant %s (regression of a recorded, fixed defect): %s" % (
+            v.get("cls") or v["inv"], json.dumps(v.get("detail"), default=str)[:600]))
+        say("VIOLATION property=%s replay=%s" % (pid, path))
+        exit_code = 1
+    if n_regress:
+        say("regression corpus: %d replays, %d reproduced" % (n_regress, len(rbad)))
 
     results, wall = run_batch(pid, tier, batch_seed, n_runs, wall_cap,
                               extra_env=extra_env)
@@ -456,6 +496,8 @@ def check(pid, tier, batch_seed):
         "workers": NPROC,
         "stats": stats,
         "known_findings_seen": known_seen + suppressed,
+        "regression_replays": n_regress,
+        "regression_reproduced": len(rbad),
         "harness_errors": len(errs),
         "real_components": getattr(mod, "REAL", []),
         "stub_components": getattr(mod, "STUB", []),
@@ -463,7 +505,7 @@ def check(pid, tier, batch_seed):
     }
     ev = {"property_id": pid, "tier": tier, "seed": batch_seed, "level": mod.LEVEL,
           "coverage": cov, "assumptions": getattr(mod, "ASSUMPTIONS", []),
-          "wall_s": round(total_wall, 2), "violations": len(reported)}
+          "wall_s": round(total_wall, 2), "violations": len(reported) + len(rbad)}
     os.makedirs(os.path.join(VERIF, "evidence"), exist_ok=True)
     evp = os.path.join(VERIF, "evidence", "%s.json" % pid)
     if os.environ.get("VERIF_NO_EVIDENCE"):
